@@ -19,7 +19,7 @@ def parseReq (j : Json) : Option Req := do
 /-- configuration for one op line: today's source facts + the back-end the harness ran on + optional TTL override -/
 def cfgFor (j : Json) : Cfg :=
   let redis := jStr j "backend" == "redis"
-  let base := today (jBool j "strict") (!redis)
+  let base := if jStr j "backend" == "redis-multinode" then todayRedisMultiNode else today (jBool j "strict") (!redis)
   if jHas j "ttl" then
     let t := jObj j "ttl"
     { base with ttl := fun k => if jHas t k.name then jNat t k.name else base.ttl k }
@@ -125,7 +125,38 @@ def step (u : Unit) (j : Json) : Unit × List String :=
   | "note" => (u, ["note " ++ jStr j "text"])
   | o => (u, ["bad-op:" ++ o])
 
+def evInt : Ev → Int
+  | .step i => i
+  | .tick dt => -(dt : Int)
+
+def reqJson : Req → Json
+  | .burn r => Json.mkObj [("kind", (Kind.burn r.kind).name), ("id", r.id), ("want", r.want), ("pre", r.pre), ("post", r.post)]
+  | .mark r => Json.mkObj [("kind", (Kind.mark r.kind).name), ("id", r.id), ("want", ""), ("pre", true), ("post", true)]
+
+/-- the Lean witness schedules as op lines, to be replayed on the implementation: several nodes on one Redis
+    (where they are expected to show two successes) and on one node (where they must not) -/
+def witnessLines : List String := Id.run do
+  let ttl := Json.mkObj (Kind.all.map fun k => (k.name, Json.num (todayTTL k)))
+  let mut out : List String := []
+  for level in ["storage", "iam"] do
+    for backend in ["redis-multinode", "redis", "mem"] do
+      for (name, st, reqs, sched) in
+          [("lean-witness-code", witnessStore, [witnessCodeReq, witnessCodeReq], witnessSched),
+           ("lean-witness-s2s", ([] : Store), witnessMarkReqs .s2s, witnessMarkSched),
+           ("lean-witness-jti", ([] : Store), witnessMarkReqs .jti, witnessMarkSched)] do
+        let initJ := st.map fun (k, e) => Json.mkObj [("kind", k.ns.name), ("id", k.id), ("val", e.val)]
+        let base : List (String × Json) :=
+          [("op", "run"), ("scn", name), ("level", level), ("backend", backend), ("strict", false),
+           ("init", Json.arr initJ.toArray), ("threads", Json.arr (reqs.map reqJson).toArray),
+           ("sched", Json.arr ((sched.map fun e => Json.num (evInt e)).toArray))]
+        let fields := if level == "storage" then base ++ [("ttl", ttl)] else base
+        out := out ++ [(Json.mkObj fields).compress]
+  return out
+
 end Nuts.Drv.C05
 
-def main : IO Unit := do
-  Nuts.Drv.loop (← IO.getStdin) (← IO.getStdout) Nuts.Drv.C05.step ()
+def main (args : List String) : IO Unit := do
+  if args.contains "witnesses" then
+    for l in Nuts.Drv.C05.witnessLines do IO.println l
+  else
+    Nuts.Drv.loop (← IO.getStdin) (← IO.getStdout) Nuts.Drv.C05.step ()
